@@ -275,7 +275,8 @@ type ClassDef struct {
 
 // MinClassDefSize returns the sizes of the two formats for the given
 // assignment of non-zero classes (format 1 spanning the first to the last
-// glyph with a non-zero class, format 2 with maximal ranges).
+// glyph with a non-zero class, format 2 with maximal ranges); Impossible if
+// the format's 16-bit count field cannot hold the table.
 func MinClassDefSize(classes map[uint16]uint16) (f1, f2 int) {
 	if len(classes) == 0 {
 		return 6, 4
@@ -291,14 +292,24 @@ func MinClassDefSize(classes map[uint16]uint16) (f1, f2 int) {
 	}
 	sort.Ints(keys)
 	f1 = 6 + 2*(keys[len(keys)-1]-keys[0]+1)
+	if keys[len(keys)-1]-keys[0]+1 > 0xFFFF {
+		f1 = Impossible // glyphCount is a 16-bit field
+	}
 	runs := 0
 	for i, g := range keys {
 		if i == 0 || g != keys[i-1]+1 || classes[uint16(g)] != classes[uint16(keys[i-1])] {
 			runs++
 		}
 	}
-	return f1, 4 + 6*runs
+	f2 = 4 + 6*runs
+	if runs > 0xFFFF {
+		f2 = Impossible // classRangeCount is a 16-bit field
+	}
+	return f1, f2
 }
+
+// Impossible is the size reported for a format that cannot hold the table.
+const Impossible = int(^uint(0) >> 1)
 
 func (w *walker) classDef(pos int, path string) *ClassDef {
 	path += "/ClassDef"
